@@ -1,2 +1,185 @@
-import PybropsModel.Model.Pareto
-theorem C19_dummy : 1 + 1 = 2 := by decide
+/-
+C19 — Pareto-front identification and front ranking are exact.
+Property theorems only (helper lemmas live in Lemmas/ParetoLoop.lean).
+
+Model: PybropsModel/Model/Pareto.lean (`efficientIdx`, `efficientMask` transcribe
+pybrops/core/util/pareto.py:is_pareto_efficient; `dominates` transcribes pymoo_addon.dominates).
+-/
+import PybropsModel.Lemmas.ParetoVec
+set_option linter.unusedSectionVars false
+set_option autoImplicit false
+
+namespace C19
+open Pareto
+
+section filter
+variable {α : Type} [Mul α] [LinearOrder α]
+
+/-- **Soundness.**  A point is marked efficient only if no other point is at least as good in
+    every weighted objective and strictly better in one. -/
+theorem filter_sound (fmat : List (List α)) (wt : List α) (hrect : ∀ r ∈ fmat, r.length = wt.length)
+    (i : Nat) (hi : i ∈ efficientIdx fmat wt) (j : Nat) (hj : j < fmat.length) :
+    strictDom (wrow fmat wt j) (wrow fmat wt i) = false := by
+  obtain ⟨h1, _, h3⟩ := filter_facts fmat wt hrect
+  rw [efficientIdx_eq] at hi
+  obtain ⟨x, hx, rfl⟩ := List.mem_map.mp hi
+  have hxr := h1 x hx
+  obtain ⟨_, hxv⟩ := (mem_rows fmat wt x).mp hxr
+  have hy : (j, wrow fmat wt j) ∈ rows fmat wt := (mem_rows fmat wt _).mpr ⟨hj, rfl⟩
+  by_contra hs
+  have hs : strictDom (wrow fmat wt j) (wrow fmat wt x.1) = true := by simpa using hs
+  have hnw := strictDom_not_weakDom _ _ hs
+  -- strictDom j x gives weakDom x j, so by the filter weakDom j x: contradiction
+  have hwxj : wdI x (j, wrow fmat wt j) = true := by
+    unfold strictDom at hs
+    simp only [Bool.and_eq_true] at hs
+    show weakDom x.2 (wrow fmat wt j) = true
+    rw [hxv]; exact hs.1
+  have := h3 x hx _ hy hwxj
+  have : weakDom (wrow fmat wt j) x.2 = true := this
+  rw [hxv] at this
+  rw [this] at hnw
+  exact Bool.noConfusion hnw
+
+/-- **Completeness.**  Every unmarked point is equalled or dominated by a marked one. -/
+theorem filter_complete (fmat : List (List α)) (wt : List α) (hrect : ∀ r ∈ fmat, r.length = wt.length)
+    (i : Nat) (hi : i < fmat.length) (hni : i ∉ efficientIdx fmat wt) :
+    ∃ j ∈ efficientIdx fmat wt, weakDom (wrow fmat wt i) (wrow fmat wt j) = true := by
+  obtain ⟨h1, h2, _⟩ := filter_facts fmat wt hrect
+  have hr : (i, wrow fmat wt i) ∈ rows fmat wt := (mem_rows fmat wt _).mpr ⟨hi, rfl⟩
+  rw [efficientIdx_eq] at hni ⊢
+  have hnot : (i, wrow fmat wt i) ∉ paretoGo wdI [] (rows fmat wt) := by
+    intro h; exact hni (List.mem_map.mpr ⟨_, h, rfl⟩)
+  obtain ⟨s, hs, hws⟩ := h2 _ hr hnot
+  refine ⟨s.1, List.mem_map.mpr ⟨s, hs, rfl⟩, ?_⟩
+  obtain ⟨_, hsv⟩ := (mem_rows fmat wt s).mp (h1 s hs)
+  have : weakDom (wrow fmat wt i) s.2 = true := hws
+  rw [hsv] at this
+  exact this
+
+/-- efficient indices are valid, duplicate-free and keep the input order -/
+theorem filter_indices (fmat : List (List α)) (wt : List α) :
+    (efficientIdx fmat wt).Sublist (List.range fmat.length) := by
+  rw [efficientIdx_eq]
+  have hs := paretoGo_sublist (wdI (α := α)) (rows fmat wt).length [] (rows fmat wt) rfl
+  simp only [List.nil_append] at hs
+  have := hs.map Prod.fst
+  have hr : ((rows fmat wt).map Prod.fst) = List.range fmat.length := by
+    simp only [rows, List.map_map]
+    have : (Prod.fst ∘ fun ri : List α × Nat => (ri.2, ri.1)) = Prod.snd := rfl
+    rw [this]
+    rw [List.zipIdx_eq_zip_range', List.map_snd_zip (by simp), List.range_eq_range', List.length_map]
+  rw [hr] at this
+  exact this
+
+/-- **Mask and index forms agree.** -/
+theorem mask_eq_index (fmat : List (List α)) (wt : List α) (i : Nat) (hi : i < fmat.length) :
+    (efficientMask fmat wt)[i]? = some (decide (i ∈ efficientIdx fmat wt)) := by
+  unfold efficientMask
+  simp [hi]
+
+theorem mask_length (fmat : List (List α)) (wt : List α) :
+    (efficientMask fmat wt).length = fmat.length := by
+  simp [efficientMask]
+
+end filter
+
+/-! ### the dominance predicate of the memetic optimisers -/
+section dom
+variable {α : Type} [LinearOrder α] [Zero α]
+
+/-- both feasible: plain Pareto dominance (minimisation) -/
+theorem dominates_feasible (o1 o2 : List α) (c1 c2 : α) (h1 : c1 ≤ 0) (h2 : c2 ≤ 0) :
+    dominates o1 c1 o2 c2 =
+      ((List.zip o1 o2).all (fun ab => decide (ab.1 ≤ ab.2)) &&
+       (List.zip o1 o2).any (fun ab => decide (ab.1 < ab.2))) := by
+  simp [dominates, h1, h2]
+
+/-- otherwise: ordered by constraint violation only -/
+theorem dominates_infeasible (o1 o2 : List α) (c1 c2 : α) (h : ¬ (c1 ≤ 0 ∧ c2 ≤ 0)) :
+    dominates o1 c1 o2 c2 = decide (c1 < c2) := by
+  simp only [dominates]
+  rw [if_neg]
+  simpa using h
+
+/-- a feasible point dominates every infeasible one, never the other way round -/
+theorem dominates_feasibility_first (o1 o2 : List α) (c1 c2 : α) (h1 : c1 ≤ 0) (h2 : 0 < c2) :
+    dominates o1 c1 o2 c2 = true ∧ dominates o2 c2 o1 c1 = false := by
+  have hn : ¬ (c1 ≤ 0 ∧ c2 ≤ 0) := fun h => absurd h.2 (not_le.mpr h2)
+  have hn' : ¬ (c2 ≤ 0 ∧ c1 ≤ 0) := fun h => absurd h.1 (not_le.mpr h2)
+  rw [dominates_infeasible _ _ _ _ hn, dominates_infeasible _ _ _ _ hn']
+  simp only [decide_eq_true_eq, decide_eq_false_iff_not, not_lt]
+  exact ⟨lt_of_le_of_lt h1 h2, le_trans h1 h2.le⟩
+
+theorem dominates_irrefl (o : List α) (c : α) : dominates o c o c = false := by
+  by_cases h : c ≤ 0
+  · rw [dominates_feasible _ _ _ _ h h]
+    have : (List.zip o o).any (fun ab => decide (ab.1 < ab.2)) = false := by
+      by_contra hne
+      have hne : (List.zip o o).any (fun ab => decide (ab.1 < ab.2)) = true := by simpa using hne
+      obtain ⟨i, h1, _, hlt⟩ := (any_lt_iff o o).mp hne
+      exact lt_irrefl _ hlt
+    simp [this]
+  · rw [dominates_infeasible _ _ _ _ (fun hh => h hh.1)]
+    simp
+
+private theorem pareto_strict_trans (a b c : List α) (h1 : a.length = b.length) (h2 : b.length = c.length)
+    (hab : ((List.zip a b).all (fun ab => decide (ab.1 ≤ ab.2)) && (List.zip a b).any (fun ab => decide (ab.1 < ab.2))) = true)
+    (hbc : ((List.zip b c).all (fun ab => decide (ab.1 ≤ ab.2)) && (List.zip b c).any (fun ab => decide (ab.1 < ab.2))) = true) :
+    ((List.zip a c).all (fun ab => decide (ab.1 ≤ ab.2)) && (List.zip a c).any (fun ab => decide (ab.1 < ab.2))) = true := by
+  rw [Bool.and_eq_true, all_le_iff, any_lt_iff] at *
+  obtain ⟨lab, i, ia, ib, hlt⟩ := hab
+  obtain ⟨lbc, _⟩ := hbc
+  refine ⟨fun k ka kc => le_trans (lab k ka (h1 ▸ ka)) (lbc k (h1 ▸ ka) kc), i, ia, h2 ▸ ib, ?_⟩
+  exact lt_of_lt_of_le hlt (lbc i ib (h2 ▸ ib))
+
+/-- `dominates` is transitive on objective vectors of one length: together with irreflexivity it is
+    a strict partial order that ranks feasible points by Pareto dominance and infeasible ones by
+    constraint violation. -/
+theorem dominates_trans (o1 o2 o3 : List α) (c1 c2 c3 : α)
+    (hl1 : o1.length = o2.length) (hl2 : o2.length = o3.length)
+    (h12 : dominates o1 c1 o2 c2 = true) (h23 : dominates o2 c2 o3 c3 = true) :
+    dominates o1 c1 o3 c3 = true := by
+  by_cases f1 : c1 ≤ 0 <;> by_cases f2 : c2 ≤ 0 <;> by_cases f3 : c3 ≤ 0
+  · rw [dominates_feasible _ _ _ _ f1 f2] at h12
+    rw [dominates_feasible _ _ _ _ f2 f3] at h23
+    rw [dominates_feasible _ _ _ _ f1 f3]
+    exact pareto_strict_trans o1 o2 o3 hl1 hl2 h12 h23
+  · rw [dominates_infeasible _ _ _ _ (fun h => f3 h.2)]
+    simp only [decide_eq_true_eq]
+    exact lt_of_le_of_lt f1 (not_le.mp f3)
+  · rw [dominates_infeasible _ _ _ _ (fun h => f2 h.1)] at h23
+    simp only [decide_eq_true_eq] at h23
+    exact absurd (lt_of_lt_of_le h23 f3) (fun h => f2 h.le)
+  · rw [dominates_infeasible _ _ _ _ (fun h => f2 h.2)] at h12
+    rw [dominates_infeasible _ _ _ _ (fun h => f2 h.1)] at h23
+    rw [dominates_infeasible _ _ _ _ (fun h => f3 h.2)]
+    simp only [decide_eq_true_eq] at *
+    exact lt_trans h12 h23
+  · rw [dominates_infeasible _ _ _ _ (fun h => f1 h.1)] at h12
+    simp only [decide_eq_true_eq] at h12
+    exact absurd (lt_of_lt_of_le h12 f2) (fun h => f1 h.le)
+  · rw [dominates_infeasible _ _ _ _ (fun h => f1 h.1)] at h12
+    simp only [decide_eq_true_eq] at h12
+    exact absurd (lt_of_lt_of_le h12 f2) (fun h => f1 h.le)
+  · rw [dominates_infeasible _ _ _ _ (fun h => f1 h.1)] at h12
+    rw [dominates_infeasible _ _ _ _ (fun h => f2 h.1)] at h23
+    simp only [decide_eq_true_eq] at *
+    exact absurd (lt_of_lt_of_le (lt_trans h12 h23) f3) (fun h => f1 h.le)
+  · rw [dominates_infeasible _ _ _ _ (fun h => f1 h.1)] at h12
+    rw [dominates_infeasible _ _ _ _ (fun h => f2 h.1)] at h23
+    rw [dominates_infeasible _ _ _ _ (fun h => f1 h.1)]
+    simp only [decide_eq_true_eq] at *
+    exact lt_trans h12 h23
+
+end dom
+
+/-! ### non-vacuity: the hypotheses are met by concrete non-trivial inputs (evaluated by the kernel) -/
+
+example : efficientIdx (α := Int) [[1, 2], [2, 1], [1, 1], [2, 1], [0, 3]] [1, 1] = [0, 1, 4] := by decide
+example : efficientMask (α := Int) [[1, 2], [2, 1], [1, 1], [2, 1], [0, 3]] [1, 1]
+    = [true, true, false, false, true] := by decide
+example : (∀ r ∈ ([[1, 2], [2, 1], [1, 1]] : List (List Int)), r.length = ([1, 1] : List Int).length) := by decide
+example : dominates (α := Int) [1, 2] 0 [1, 3] 0 = true ∧ dominates (α := Int) [1, 2] 1 [0, 0] 2 = true := by decide
+
+end C19
